@@ -30,7 +30,7 @@ TECHNIQUE = ("Lean 4 proofs: ledger invariant (every block obtained by regp_recv
              "regp_free releases it exactly once), stored octets never exceed B - F, the backend buffer handed out has room for the block it must hold, overflow / "
              "busy / short-frame replies as stated + differential correspondence with ASan on exact-size blocks, boundary lengths and failure scripts")
 LEVEL_TEXT = ("Machine-checked proof over the Lean model of regp_recv / regp_process with the continuable sink and a scripted allocator: for every event stream, transport, "
-              "block size B > F and allocation script, the octets stored in a block never exceed B - F, the ledger after regp_recv counts exactly the returned frame "
+              "block size B (also B <= F) and allocation script, the octets stored in a block never exceed B - F, the ledger after regp_recv counts exactly the returned frame "
               "(a channel error leaves it unchanged), regp_free releases exactly once, a read hands the backend a buffer with room for the announced block and a write "
               "exactly the announced payload, and the replies are receive-overflow, transmit-overflow with the buffer size, busy, bad header encoding (also for the empty "
               "frame) as stated.  That the compiled code stays inside the block is observed by ASan on exact-size heap blocks over boundary lengths, failure scripts and random streams.")
